@@ -302,3 +302,10 @@ Qed.
 (* growing a collection (any order) never makes its best worse *)
 Theorem best_incl_monotone mx ks ks' b b' : incl ks ks' -> best_of mx ks = Some b -> best_of mx ks' = Some b' -> better mx b b' = false.
 Proof. intros Hi H H'. destruct (best_of_spec mx ks b H) as (I & _). destruct (best_of_spec mx ks' b' H') as (_ & N). now apply N, Hi. Qed.
+
+(* MWEA: with k >= 1 winners per election the repeated selection always delivers exactly the population size *)
+Theorem mwea_keeps_size size k : (1 <= k)%nat -> mwea_size size k = size.
+Proof.
+  intros Hk. unfold mwea_size, mwea_elections. pose proof (Nat.div_mod size k ltac:(lia)) as D. pose proof (Nat.mod_upper_bound size k ltac:(lia)) as M.
+  destruct (Nat.ltb_spec size ((size / k + 1) * k)) as [_|H]; [reflexivity|]. exfalso. nia.
+Qed.
